@@ -334,10 +334,10 @@ class C02(core.Prop):
         try:
             with quiet(), contextlib.redirect_stdout(io.StringIO()):
                 if detect:
-                    v = detect_df(df, tdda_dict(case['constraints'], case['frame']), epsilon=eps,
+                    v = detect_df(df, tdda_dict(case['constraints'], None if case.get('naive_tz_bounds') else case['frame']), epsilon=eps,
                                   type_checking='strict' if case['strict'] else 'sloppy', repair=False)
                 else:
-                    v = verify_df(df, tdda_dict(case['constraints'], case['frame']), epsilon=eps,
+                    v = verify_df(df, tdda_dict(case['constraints'], None if case.get('naive_tz_bounds') else case['frame']), epsilon=eps,
                                   type_checking='strict' if case['strict'] else 'sloppy', repair=False)
             res = ('ok', v)
         except Exception as e:
